@@ -173,3 +173,25 @@ Definition tag_capture (groups : list (str * str)) (t : str) : Prop :=
 (* there is no group named "tag", or none of them captured any text *)
 Definition no_tag_capture (groups : list (str * str)) : Prop :=
   Forall (fun g => fst g <> tag_group \/ snd g = []) groups.
+
+(* what the memo invariant really needs from a delivery (implied by [informer_ok]): the stored
+   version that the delivery replaces or removes, if it is indexable, is announced to the handler
+   as an indexable pod with the same IP (so its memo entry is dropped); an Add never overwrites
+   an indexable stored version.  Deliveries for keys that are not stored are harmless. *)
+Definition delivery_safe (st : gmap str pod) (l : label) : Prop :=
+  match l with
+  | Add p => forall q, st !! pod_key p = Some q -> indexable q = false
+  | Update old new =>
+      forall q, st !! pod_key new = Some q -> indexable q = true ->
+                indexable old = true /\ p_ip old = p_ip q
+  | Delete p =>
+      forall q, st !! pod_key p = Some q -> indexable q = true ->
+                indexable p = true /\ p_ip p = p_ip q
+  | Lookup _ => True
+  end.
+
+Fixpoint history_safe (cfg : config) (s : state) (ls : list label) : Prop :=
+  match ls with
+  | [] => True
+  | l :: r => delivery_safe (store s) l /\ history_safe cfg (step cfg s l) r
+  end.
